@@ -124,8 +124,17 @@ func (c *Component) SetHandler(handler EventHandler) {
 
 // Receiver Go routine receiver
 func (c *Component) recv() {
+	if verifEnabled {
+		defer vpoint("recv.exit")
+	}
 	for {
+		if verifEnabled {
+			vpoint("recv.wait")
+		}
 		val, err := stanza.NextPacket(c.transport.GetDecoder())
+		if verifEnabled {
+			vpoint("recv.next", "err", err != nil)
+		}
 		if err != nil {
 			c.updateState(StateDisconnected)
 			c.ErrorHandler(err)
